@@ -20,6 +20,10 @@ pub enum Strategy {
     /// tasks whose name starts with `class` are held back between steps `from` and `until`
     /// unless nothing else is runnable; otherwise random.
     Starve { class: String, from: u64, until: u64 },
+    /// the first task whose name starts with `class` is frozen for `len` steps when it is about to
+    /// take its `nth` step (unless nothing else can run): "one thread stalls at a random point of
+    /// its own execution"; otherwise sticky random
+    Stall { class: String, nth: u32, len: u64 },
     /// replay a recorded choice list (task ids at each >=2-runnable decision)
     Replay { choices: Vec<u32> },
     /// round robin biased: used for fault-free phases where nothing adversarial is wanted
@@ -84,6 +88,10 @@ pub struct SeededScheduler {
     /// sleeping tasks: task id -> (other task id -> steps it still has to run before the sleeper wakes)
     sleepers: std::collections::BTreeMap<usize, std::collections::BTreeMap<usize, u32>>,
     last_sleep_count: u64,
+    // stall strategy: steps taken per task, the task being stalled and until when
+    taken: Vec<u32>,
+    stalled: Option<(usize, u64)>,
+    stall_done: bool,
 }
 
 impl SeededScheduler {
@@ -109,6 +117,9 @@ impl SeededScheduler {
             record: true,
             sleepers: Default::default(),
             last_sleep_count: 0,
+            taken: vec![],
+            stalled: None,
+            stall_done: false,
         }
     }
 
@@ -290,6 +301,42 @@ impl Scheduler for SeededScheduler {
                         }
                     }
                 }
+                Strategy::Stall { class, nth, len } => {
+                    let (nth, len) = (*nth, *len);
+                    if !self.stall_done && self.stalled.is_none() {
+                        for t in runnable {
+                            let id: usize = t.id().into();
+                            let cnt = self.taken.get(id).cloned().unwrap_or(0);
+                            if cnt == nth && name_of(t).starts_with(class.as_str()) {
+                                self.stalled = Some((id, self.steps + len));
+                                break;
+                            }
+                        }
+                    }
+                    let mut c2: Vec<usize> = cand.clone();
+                    if let Some((id, until)) = self.stalled {
+                        if self.steps >= until {
+                            self.stalled = None;
+                            self.stall_done = true;
+                        } else {
+                            let rest: Vec<usize> = c2
+                                .iter()
+                                .cloned()
+                                .filter(|i| *i != id && !(is_yielding && Some(*i) == cur))
+                                .collect();
+                            if !rest.is_empty() {
+                                c2 = rest;
+                            }
+                        }
+                    }
+                    if is_yielding && c2.len() > 1 {
+                        c2.retain(|i| Some(*i) != cur);
+                    }
+                    match cur {
+                        Some(c) if !is_yielding && c2.contains(&c) && self.rng.below(100) < 60 => c,
+                        _ => c2[self.rng.below(c2.len() as u64) as usize],
+                    }
+                }
                 Strategy::Starve { class, from, until } => {
                     let (from, until) = (*from, *until);
                     let mut c2: Vec<usize> = cand.clone();
@@ -354,6 +401,10 @@ impl Scheduler for SeededScheduler {
                 }
             });
         }
+        while self.taken.len() <= choice {
+            self.taken.push(0);
+        }
+        self.taken[choice] += 1;
         for pending in self.sleepers.values_mut() {
             if let Some(n) = pending.get_mut(&choice) {
                 *n = n.saturating_sub(1);
@@ -371,7 +422,7 @@ impl Scheduler for SeededScheduler {
 
 /// Draw a strategy for a run. `classes`: thread-name prefixes that may be starved in this profile.
 pub fn draw_strategy(rng: &mut Rng, classes: &[&str]) -> Strategy {
-    let w = [20u32, 35, 15, if classes.is_empty() { 0 } else { 30 }];
+    let w = [20u32, 30, 12, if classes.is_empty() { 0 } else { 20 }, if classes.is_empty() { 0 } else { 18 }];
     match rng.weighted(&w) {
         0 => Strategy::Random,
         1 => {
@@ -382,6 +433,13 @@ pub fn draw_strategy(rng: &mut Rng, classes: &[&str]) -> Strategy {
             Strategy::Pct { depth, est_steps: est }
         }
         2 => Strategy::Burst { keep: rng.range(70, 97) as u32 },
+        4 => {
+            let class = rng.pick(classes).to_string();
+            let span = *rng.pick(&[8u64, 24, 64, 200]);
+            let nth = rng.below(span) as u32;
+            let le = rng.range(5, 13);
+            Strategy::Stall { class, nth, len: 1 + rng.below(1u64 << le) }
+        }
         _ => {
             let class = rng.pick(classes).to_string();
             let e = rng.range(3, 13);
@@ -399,6 +457,7 @@ pub fn strategy_name(s: &Strategy) -> String {
         Strategy::Pct { depth, .. } => format!("pct{depth}"),
         Strategy::Burst { .. } => "burst".into(),
         Strategy::Starve { class, .. } => format!("starve:{class}"),
+        Strategy::Stall { class, .. } => format!("stall:{class}"),
         Strategy::Replay { .. } => "replay".into(),
         Strategy::RoundRobin => "rr".into(),
     }
